@@ -86,6 +86,7 @@ class Explorer:
         self.ascii_chars = set()
         self.bitf = {}
         self.bitf_cache = {}
+        self.ghosts = {}
         self.n_paths += 1
 
     def fresh_name(self, base):
